@@ -21,6 +21,8 @@ type memCarrier struct {
 	end        error
 	blockAtEnd bool
 	readFailAt int // the k-th Read call (1-based) and all later ones fail with errCarrier; 0 = never
+	tempErrAt  int   // the k-th Read call returns tempErr once and consumes nothing; 0 = never
+	tempErr    error
 	reads      int
 	deadline   time.Time
 	closedCh   chan struct{}
@@ -63,6 +65,10 @@ func (m *memCarrier) Read(p []byte) (int, error) {
 	if m.closed {
 		m.mu.Unlock()
 		return 0, errClosed
+	}
+	if m.tempErrAt > 0 && k == m.tempErrAt {
+		m.mu.Unlock()
+		return 0, m.tempErr
 	}
 	if m.readFailAt > 0 && k >= m.readFailAt {
 		m.mu.Unlock()
